@@ -148,7 +148,8 @@ class Pipeline:
                 self.pipeline_registers[:num_to_flush] = [
                     PipelineRegister()
                 ] * num_to_flush
-                self.state.program_counter = flush_signal.address
+                # the program counter is a 32 bit register (a backward branch below 0 wraps)
+                self.state.program_counter = flush_signal.address % 2**32
 
                 # Unstall stages that have been flushed
                 if self.stalled is not None and self.stalled[0] < num_to_flush:
